@@ -112,8 +112,9 @@ pub fn parse_swift_digits(input: &str, field_name: &str) -> Result<String, Parse
 /// / - ? : ( ) . , ' + { } SPACE CR LF and other printable ASCII
 pub fn parse_swift_chars(input: &str, field_name: &str) -> Result<String, ParseError> {
     // SWIFT x character set: alphanumeric + special characters
-    // Common special chars: / - ? : ( ) . , ' + { } SPACE CR LF % & * ; < = > @ [ ] _ $ ! " # |
-    const SWIFT_SPECIAL: &str = "/-?:().,'+{} \r\n%&*;<=>@[]_$!\"#|";
+    // Common special chars: / - ? : ( ) . , ' + { } SPACE % & * ; < = > @ [ ] _ $ ! " # |
+    // (CR and LF separate lines; they are not characters of a line)
+    const SWIFT_SPECIAL: &str = "/-?:().,'+{} %&*;<=>@[]_$!\"#|";
 
     if !input
         .chars()
